@@ -534,6 +534,50 @@ class Payload:
 
         return Payload(ans)
 
+    def __rtruediv__(self, other):
+        """__rtruediv__"""
+
+        assert not isinstance(other, Payload)
+
+        return Payload(other / self.value)
+
+    def __itruediv__(self, other):
+        """__itruediv__"""
+
+        if isinstance(other, Payload):
+            self.value = self.value / other.value
+        else:
+            self.value = self.value / other
+
+        return self
+
+    def __floordiv__(self, other):
+        """__floordiv__"""
+
+        if isinstance(other, Payload):
+            ans = self.value // other.value
+        else:
+            ans = self.value // other
+
+        return Payload(ans)
+
+    def __rfloordiv__(self, other):
+        """__rfloordiv__"""
+
+        assert not isinstance(other, Payload)
+
+        return Payload(other // self.value)
+
+    def __ifloordiv__(self, other):
+        """__ifloordiv__"""
+
+        if isinstance(other, Payload):
+            self.value = self.value // other.value
+        else:
+            self.value = self.value // other
+
+        return self
+
     def __rmul__(self, other):
         """__rmul__"""
 
@@ -628,6 +672,23 @@ class Payload:
 
         return Payload(ans)
 
+    def __rand__(self, other):
+        """__rand__"""
+
+        assert not isinstance(other, Payload)
+
+        return Payload(other & self.value)
+
+    def __iand__(self, other):
+        """__iand__"""
+
+        if isinstance(other, Payload):
+            self.value = self.value & other.value
+        else:
+            self.value = self.value & other
+
+        return self
+
 
     def __or__(self, other):
         """__or__"""
@@ -639,6 +700,23 @@ class Payload:
 
         return Payload(ans)
 
+    def __ror__(self, other):
+        """__ror__"""
+
+        assert not isinstance(other, Payload)
+
+        return Payload(other | self.value)
+
+    def __ior__(self, other):
+        """__ior__"""
+
+        if isinstance(other, Payload):
+            self.value = self.value | other.value
+        else:
+            self.value = self.value | other
+
+        return self
+
 
     def __lshift__(self, other):
         """__lshift__"""
@@ -649,6 +727,13 @@ class Payload:
             ans = self.value << other
 
         return Payload(ans)
+
+    def __rlshift__(self, other):
+        """__rlshift__"""
+
+        assert not isinstance(other, Payload)
+
+        return Payload(other << self.value)
 
 #
 # Copy operation
